@@ -140,7 +140,7 @@ def main(argv=None):
                 undecided.append((r["scenario"], [name, "solver: " + str(ob.get("detail"))]))
 
     # findings that no longer fail: report so the entry can be retired (not an error)
-    stale = [e for e in finds if e["obligation"] not in {k for k, _ in known_hits}] if not args.only else []
+    stale = [e for e in finds if e.get("property") == prop and e["obligation"] not in {k for k, _ in known_hits}] if not args.only else []
 
     # ---- replay of violations ------------------------------------------------------------
     lines = []
@@ -223,7 +223,7 @@ def main(argv=None):
         return 1
     if undecided:
         return 2
-    if n_ob == 0 or n_dis == 0:
+    if (n_ob == 0 or n_dis == 0) and not args.only:
         print("CHECKER-ERROR: zero obligations discharged (vacuity guard)")
         return 3
     return 0
